@@ -29,7 +29,7 @@ ASSUMPTIONS = [
     'with rebuild_scopes=False a ScopedNode is updated in place by design: "original unchanged" is asserted outside scoped nodes only',
     'source invalidation is checked only in the documented direction (ancestors of a source-less replacement are invalid; invalidate_source=False retains sources); '
     'the source status of a scoped node that is updated in place by design belongs to that in-place update',
-    'in-place mode: an internal node with an equal duplicate is never drawn as self-containing-tuple key or as start/stop node '
+    'in-place mode: an internal node with an equal duplicate is never drawn as self-containing-tuple key, NestedTransformer handle key or start/stop node '
     '(listed known finding; such a request also puts one node object at two tree positions, which are then updated twice)',
 ]
 SHARDS = {'quick': 8, 'thorough': 16}
@@ -206,6 +206,11 @@ def case_strategy(draw, thorough=False):
                     h = {'r': attrs}
                 else:
                     h = {'n': draw(fresh_node(counter, kind=e['kind']))}
+                if h is not None and case['opts']['inplace'] and _inplace_dup_hazard(idx, djcount, i):
+                    # depth-first: the children of the key object are updated in place before later equal duplicates are
+                    # looked up (known finding C14:inplace:updated-key-node-no-longer-matches-equal-duplicate): excluded
+                    case['excluded_inplace_dup_keys'] = case.get('excluded_inplace_dup_keys', 0) + 1
+                    continue
             used.add(dj)
             case['map'].append({'key': i, 'h': h})
     else:
@@ -500,7 +505,7 @@ def check_case(case, ctx):
 
     ctx.case(case, nontrivial, classes)
     if case.get('excluded_inplace_dup_keys'):
-        ctx.exclude('in-place mode: internal node with an equal duplicate drawn as self-containing-tuple key or start/stop node '
+        ctx.exclude('in-place mode: internal node with an equal duplicate drawn as self-containing-tuple key, NestedTransformer handle key or start/stop node '
                     '(known: C14:inplace:updated-key-node-no-longer-matches-equal-duplicate)', case['excluded_inplace_dup_keys'])
     if case.get('excluded_nm_assoc'):
         ctx.exclude('NestedMaskedTransformer tree drawn without ASSOCIATE blocks (known: C14:NM:scoped-node-not-handled-as-internal-node)')
@@ -531,8 +536,10 @@ def check_case(case, ctx):
         make = lambda: cls(**kw)   # noqa
 
     djc = _djcount(idx)
-    if mode in ('T', 'N'):
+    if mode == 'T':      # keys that stay in the tree (self-containing tuple) and are therefore visited and updated in place
         lookup_nodes = [ent['key'] for ent in case['map'] if 'key' in ent and isinstance(ent['h'], dict) and 'self' in ent['h'].get('t', ())]
+    elif mode == 'N':    # depth-first: the children of every key with a handle are visited
+        lookup_nodes = [ent['key'] for ent in case['map'] if 'key' in ent and ent['h'] is not None]
     else:
         lookup_nodes = case['masked']['start'] + case['masked']['stop']
     inplace_dup = bool(opts.get('inplace')) and any(_inplace_dup_hazard(idx, djc, i) for i in lookup_nodes)
@@ -664,6 +671,10 @@ def check_case(case, ctx):
 
 
 def run_shard(ctx):
+    # the budget is meant for exploration: on a loaded machine importing loki alone can take most of it
+    import time
+    from loki.ir import Transformer  # noqa: F401
+    ctx.t0 = time.time()
     ctx.note('NestedTransformer: node->tuple handles and handles with different children are not claimed (undocumented; DESIGN C14)')
     ctx.note('MaskedTransformer mapper entries are only claimed for leaves met while switched on')
     ctx.note('nested tuples left in bodies by in-place masked updates are flattened before comparison')
